@@ -11,8 +11,7 @@ configuration record `Cfg` standing for the interpreter probes (`sys.version_inf
 `EXTENSION_SUFFIXES`, `sys.maxunicode`, and the list `platform_tags()` evaluates to).
 
 The code is mirrored as it is: `list.remove` of the *first* explicit `abi3`/`none`, the threaded
-test on the *first remaining* ABI, `platforms or platform_tags()` (an empty list is replaced),
-`not python_version`, `not interpreter`, Python's tuple comparison on version tuples, and `Tag`'s
+test on the *first remaining* ABI, `not python_version`, `not interpreter`, Python's tuple comparison on version tuples, and `Tag`'s
 lower-casing of all three components.
 
 Strings are ASCII here: `str.lower` is modelled by `Py.lowerStr` and `\d` by `Py.isDigit`.
@@ -149,10 +148,9 @@ def cpythonAbis (cfg : Cfg) (ver : List Nat) : List Str :=
   else
     [sCp ++ version ++ threading ++ debug]
 
-/-- `list(platforms or platform_tags())`: `None` *and the empty list* are replaced -/
+/-- `list(platform_tags() if platforms is None else platforms)` -/
 def platformsOrDefault (cfg : Cfg) : Option (List Str) → List Str
   | none => cfg.detected
-  | some [] => cfg.detected
   | some l => l
 
 /-- `if not python_version: python_version = sys.version_info[:2]` -/
